@@ -1,6 +1,6 @@
 """Per-property registry: which TLC configurations and harness modes decide each property."""
 
-MINTER = ["DecArith.tla", "Minter.tla", "mc/MC_Minter.tla", "mc/MBT_Minter.tla"]
+MINTER = ["DecArith.tla", "MinterMath.tla", "Minter.tla", "mc/MC_Minter.tla", "mc/MBT_Minter.tla"]
 
 
 def mc(name, files, module, quick, thorough=None, **kw):
@@ -50,7 +50,7 @@ VEST_TWO = mbt("vesting-two-denoms", VEST, "MBT_Vesting.tla", "vesting", "mc/MBT
 SIG = ["Signature.tla", "mc/MBT_Signature.tla"]
 SIG_MBT = mbt("signature", SIG, "MBT_Signature.tla", "signature", "mc/MBT_Signature_quick.cfg", "mc/MBT_Signature_thorough.cfg")
 
-CHAIN = ["DecArith.tla", "Minter.tla", "Distributor.tla", "Chain.tla", "mc/MBT_Chain.tla"]
+CHAIN = ["DecArith.tla", "MinterMath.tla", "Minter.tla", "Distributor.tla", "Chain.tla", "mc/MBT_Chain.tla"]
 CHAIN_MBT = mbt("chain", CHAIN, "MBT_Chain.tla", "chain", "mc/MBT_Chain_quick.cfg", "mc/MBT_Chain_thorough.cfg", qopts={"budget": "100s", "walks": 50}, topts={"budget": "900s"})
 CHAIN_REPL = {"name": "chain-replicas", "kind": "replicas", "files": CHAIN, "module": "MBT_Chain.tla",
               "quick": dict(cfg="mc/MBT_Chain_quick.cfg", histories=40, depth=14, repeat=3),
@@ -68,7 +68,7 @@ SPLIT_NUM = {"name": "vesting-numeric", "kind": "num", "files": SPLITF, "module"
              "quick": dict(cfg="mc/MC_Split_quick.cfg", steps=800, apalache_steps=60, workers=4),
              "thorough": dict(cfg="mc/MC_Split_thorough.cfg", steps=6000, apalache_steps=1200, apalache_timeout=2400, workers=8, timeout=1800)}
 
-MINTER_TRACE = {"name": "minter-trace", "kind": "trace", "files": ["DecArith.tla", "Minter.tla", "trace/Trace_Minter.tla"], "module": "trace/Trace_Minter.tla",
+MINTER_TRACE = {"name": "minter-trace", "kind": "trace", "files": ["DecArith.tla", "MinterMath.tla", "Minter.tla", "trace/Trace_Minter.tla"], "module": "trace/Trace_Minter.tla",
                 "cfg": "trace/Trace_Minter.cfg", "recorder": "trace-minter", "corrupt_event": "block", "corrupt_field": "total",
                 "default_owner": "C02", "event_owner": {"block": "C02", "update": "C13", "configure": "C13"},
                 "invariant_owner": {"ScheduleConformance": "C02", "LinearExact": "C02", "CarryOK": "C02", "NonNegBlock": "C02", "NeverHalts": "C10",
@@ -81,6 +81,12 @@ DIST_TRACE = {"name": "dist-trace", "kind": "trace", "files": ["DecArith.tla", "
               "invariant_owner": {"NonNegative": "C03", "BooksMatch": "C03", "Conservation": "C03", "ShareExact": "C04", "PaidUp": "C04", "NeverHalts": "C10",
                                   "StoredParamsValid": "C13", "EventsAddUp": "C18"},
               "quick": dict(traces=150), "thorough": dict(traces=3000, timeout=3000)}
+
+MINTER_NUM = {"name": "minter-numeric", "kind": "num", "no_tlc": True, "files": [], "module": None, "harness": "numminter", "checker": "check_minter",
+              "quick": dict(steps=300, apalache_samples=40), "thorough": dict(steps=6000, apalache_samples=600, apalache_timeout=2400)}
+
+DIST_HUGE = {"name": "dist-huge", "kind": "num", "no_tlc": True, "files": [], "module": None, "harness": "numdist", "checker": "check_none",
+             "quick": dict(steps=300), "thorough": dict(steps=5000)}
 
 TRUST = ["TLC 1.8.0 and the TLA+ CommunityModules Json module", "the Go harness projection functions (harness/*)",
          "cosmos-sdk bank/auth keepers as the ground truth for balances and accounts"]
@@ -95,7 +101,7 @@ CHAIN_ASSUME = TRUST + ["full-app BeginBlocker / EndBlocker are run on the deliv
 
 PROPS = {
     "C01": {"level": "model_checking", "stages": [CHAIN_MBT, DIST_MULTI, DIST_CUR, VEST_POOLS, MINTER_SCHED], "assumptions": CHAIN_ASSUME},
-    "C10": {"level": "model_checking", "stages": [CHAIN_MBT, MINTER_UPD, DIST_CUR, DIST_UPD], "assumptions": CHAIN_ASSUME},
+    "C10": {"level": "model_checking", "stages": [CHAIN_MBT, MINTER_UPD, DIST_CUR, DIST_UPD, MINTER_NUM, DIST_HUGE], "assumptions": CHAIN_ASSUME},
     "C11": {"level": "model_checking", "stages": [CHAIN_REPL], "assumptions": CHAIN_ASSUME + ["Tendermint and IAVL are trusted; replicas are application instances fed the same ABCI calls"]},
     "C12": {"level": "model_checking", "stages": [CHAIN_MBT, MINTER_SCHED, DIST_CUR, VEST_ACCTS, SIG_MBT], "assumptions": CHAIN_ASSUME},
     "C13": {"level": "model_checking", "stages": [MINTER_UPD, DIST_UPD, VEST_ACCTS, CHAIN_MBT], "assumptions": CHAIN_ASSUME},
@@ -105,7 +111,7 @@ PROPS = {
             "assumptions": TRUST + ["field value classes are concretised by the harness (one representative per class); handlers are called through the modules' message servers, queries through the keepers' gRPC methods",
                                     "a panic of a handler on a message that ValidateBasic rejects is counted (handler-only) but not reported: a signer cannot reach it"]},
     "C18": {"level": "model_checking", "stages": [MINTER_SCHED, DIST_CUR, VEST_POOLS], "assumptions": TRUST},
-    "C19": {"level": "model_checking", "stages": [MINTER_MC, MINTER_SCHED, MINTER_UPD], "assumptions": TRUST + ["inflation is compared with the model value within 2/P (the model truncates the same rational at 1/P twice)"]},
+    "C19": {"level": "model_checking", "stages": [MINTER_MC, MINTER_SCHED, MINTER_UPD, MINTER_NUM], "assumptions": TRUST + ["inflation is compared with the model value within 2/P (the model truncates the same rational at 1/P twice)"]},
     "C05": {"level": "model_checking", "stages": [VEST_MC, VEST_POOLS], "assumptions": VEST_ASSUME},
     "C06": {"level": "model_checking", "stages": [VEST_MC, VEST_POOLS], "assumptions": VEST_ASSUME},
     "C08": {"level": "model_checking", "stages": [VEST_MC, VEST_POOLS, VEST_ACCTS, SPLIT_NUM], "assumptions": VEST_ASSUME},
@@ -116,12 +122,12 @@ PROPS = {
             "assumptions": TRUST + ["cryptography is abstract in the model; the harness concretises keys with generated ECDSA P-256 / RSA-2048 self-signed certificates, so soundness is relative to Go's crypto/x509",
                                     "the cfesignature Msg service is not registered with the application's router; the harness calls keeper.NewMsgServerImpl directly"]},
     "C17": {"level": "model_checking", "stages": [VEST_MC, VEST_ACCTS, VEST_POOLS], "assumptions": VEST_ASSUME},
-    "C03": {"level": "model_checking", "stages": [DIST_MC, DIST_CUR, DIST_MULTI, DIST_SINGLE, DIST_TRACE], "assumptions": DIST_ASSUME},
+    "C03": {"level": "model_checking", "stages": [DIST_MC, DIST_CUR, DIST_MULTI, DIST_SINGLE, DIST_TRACE, DIST_HUGE], "assumptions": DIST_ASSUME},
     "C04": {"level": "model_checking", "stages": [DIST_MC, DIST_CUR, DIST_MULTI, DIST_SINGLE, DIST_TRACE], "assumptions": DIST_ASSUME},
     "C14": {"level": "model_checking", "stages": [DIST_MC_FAULTS, DIST_CUR], "assumptions": DIST_ASSUME},
     "C02": {
         "level": "model_checking",
-        "stages": [MINTER_MC, MINTER_SCHED, MINTER_TRACE],
+        "stages": [MINTER_MC, MINTER_SCHED, MINTER_TRACE, MINTER_NUM],
         "assumptions": TRUST + ["block times are multiples of the model tick (year/8); real-magnitude arithmetic is covered by the numeric stage only"],
     },
 }
